@@ -202,3 +202,35 @@ Example spec_capture :
   applicable 0%float [] [("o0", "t"); ("o1", "t")] A ["o0"] s = false /\
   applicable 0%float [] [("o0", "t"); ("o1", "t")] (ren_action rho A) ["o0"] s = true.
 Proof. split; vm_compute; reflexivity. Qed.
+
+(* ================================================================================================== *)
+(* The property read literally - ANY mapping that is injective on the parameters - and its refutation    *)
+(* (recorded finding D75: a new name may be a quantified variable of the action; nothing checks it)      *)
+(* ================================================================================================== *)
+Definition full_statement : Prop :=
+  forall (dom : mdomain) (a : maction) (m : renaming),
+    well_formed a = true ->
+    (forall n, ~ In n (dkeys (ma_sig a)) -> rn m n = n) ->
+    (forall x y, In x (dkeys (ma_sig a)) -> In y (dkeys (ma_sig a)) -> rn m x = rn m y -> x = y) ->
+    same_behaviour dom a (change_signature m a).
+
+Theorem full_statement_refuted : ~ full_statement.
+Proof.
+  intros H. specialize (H ex_dom ex_act [("?z", "?u")]).
+  assert (Hwf : well_formed ex_act = true) by (vm_compute; reflexivity).
+  assert (Hmove : forall n, ~ In n (dkeys (ma_sig ex_act)) -> rn [("?z", "?u")] n = n).
+  { intros n Hn. unfold rn. simpl. destruct (String.eqb n "?z") eqn:E; [|reflexivity].
+    apply String.eqb_eq in E. subst n. exfalso. apply Hn. simpl. auto. }
+  assert (Hinj : forall x y, In x (dkeys (ma_sig ex_act)) -> In y (dkeys (ma_sig ex_act)) ->
+                             rn [("?z", "?u")] x = rn [("?z", "?u")] y -> x = y).
+  { intros x y Hx Hy. simpl in Hx, Hy.
+    destruct Hx as [<-|[<-|[<-|[]]]]; destruct Hy as [<-|[<-|[<-|[]]]]; vm_compute; intros E;
+      try reflexivity; discriminate E. }
+  specialize (H Hwf Hmove Hinj ["o0"; "o1"; "o2"]).
+  destruct (ground_action ex_dom ex_act ["o0"; "o1"; "o2"]) as [ga|k] eqn:E1; [|vm_compute in E1; discriminate E1].
+  destruct (ground_action ex_dom (change_signature [("?z", "?u")] ex_act) ["o0"; "o1"; "o2"]) as [ga'|k] eqn:E2;
+    [|vm_compute in E2; discriminate E2].
+  destruct H as [Happ _].
+  destruct capture_changes_behaviour as [_ [_ Hneq]]. apply Hneq.
+  rewrite E1, E2. unfold bind. apply Happ.
+Qed.
